@@ -1428,8 +1428,12 @@ def write_if_changed(path, content):
     os.makedirs(os.path.dirname(path), exist_ok=True)
     if os.path.exists(path) and open(path).read() == content:
         return False
-    with open(path, "w") as f:
+    # write to a temp file in the same directory and rename: a concurrent `lake build` (or a run with another
+    # VERIF_REPO) never sees a half-written table
+    tmp = f"{path}.tmp.{os.getpid()}"
+    with open(tmp, "w") as f:
         f.write(content)
+    os.replace(tmp, path)
     return True
 
 def one_line(s):
